@@ -64,7 +64,9 @@ def _choose_task(n):
         for k in range(n):
             E.prove(f"C20.tree_choose.n{n}.selects_idx_mod_n[{k}]", E.Implies(m == k, E.And(
                 E.eq(r[0], vs[k][0]), E.eq(r[1]["u"], vs[k][1]["u"]), E.eq(r[1]["v"], vs[k][1]["v"]))))
-        E.prove(f"C23.tree_choose.n{n}.concrete_and_traced_index_agree", True)   # both arms produced the clauses above
+        # C23: the SAME index-free specification (element idx mod n) is proved on the Python-int arm and on the array arm
+        E.prove(f"C23.tree_choose.n{n}.concrete_and_traced_index_agree", E.And(*[E.Implies(m == k, E.And(
+            E.eq(r[0], vs[k][0]), E.eq(r[1]["u"], vs[k][1]["u"]), E.eq(r[1]["v"], vs[k][1]["v"]))) for k in range(n)]))
         if n > 1:
             E.refutable(f"staging.tree_choose.n{n}", E.eq(r[0], vs[0][0]))
     return t
@@ -75,10 +77,10 @@ for _n in (1, 2, 3, 4):
 
 
 def _mswitch_task(n):
-    @task(f"staging.multi_switch.n{n}", props=["C20", "C13"], functions=[S + ":multi_switch", S + ":to_shape_fn"])
+    @task(f"staging.multi_switch.n{n}", props=["C20", "C13", "C23"], functions=[S + ":multi_switch", S + ":to_shape_fn"])
     def t(E, n=n):
         z3 = E.z3
-        idx = E.int("idx", conc=False)
+        idx = E.int("idx")           # a concrete Python int (eager) or a traced / array index: both explored
         fs = [E.opaque(f"f{k}") for k in range(n)]
         xs = [(E.real(f"x{k}"),) for k in range(n)]
         r = E.call(S + ":multi_switch", idx, fs, xs)
@@ -89,7 +91,7 @@ def _mswitch_task(n):
         for j in range(n):
             out = ap(fs[j].t, E.I.to_u(xs[j][0]))
             E.prove(f"C20.multi_switch.n{n}.slot[{j}]",
-                    E.eq(r[j], UVal(z3.If(clamp == j, out, zl(out)))))
+                    E.eq(r[j], UVal(z3.If(clamp == j, out, zl(out)))), also=["C23"])
         if n > 1:
             E.refutable(f"staging.multi_switch.n{n}", E.eq(r[0], UVal(ap(fs[0].t, E.I.to_u(xs[0][0])))))
     return t
